@@ -18,8 +18,8 @@ from fsmc.ref import nnls as RN, tangent as RT
 PID = "C16"
 RULE = ("states = (tissue, angle limit between consecutive breakpoints, static|velocity, default|lsq ones|lsq ramp); "
         "non-trivial = at least one interface excluded and at least one kept; classes = (tissue, excluded set size, mode, back-end)")
-BOUND = {"quick": "4 tissues (curved equilibrium, deformed, jittered 4-fold lattice, seeded) x all inter-breakpoint limits x 2 modes x 3 back-ends",
-         "thorough": "10 tissues x all inter-breakpoint limits x 2 modes x 3 back-ends"}
+BOUND = {"quick": "9 tissues (curved equilibrium, deformed, jittered 4-fold lattices, seeded, three with a lens cell: as built and with a neighbour of the lens stored clockwise, so that two inferred interfaces run between the same junctions in the same direction) x all inter-breakpoint limits x 2 modes x 3 back-ends",
+         "thorough": "13 tissues x all inter-breakpoint limits x 2 modes x 3 back-ends"}
 ASSUMPTIONS = ["junction opening angles are taken from the library's own public versors (get_versor_from_vertex); their accuracy is C02's subject. They are cross-checked against analytic angles away from breakpoints",
                "a limit exactly equal to an opening angle is not generated"]
 REQUIRED_TAGS = {"all": ["excluded_some", "excluded_all", "excluded_none", "lsq_with_exclusions", "velocity", "fourfold", "restricted_unique"]}
@@ -61,8 +61,15 @@ def build_pair(spec):
     post0 = SC.noise_post(noise, 1) if noise else None
     p1 = SC.noise_post(0.012, 3)
     post1 = p1 if post0 is None else (lambda j, i: p1(*post0(j, i)))
-    s, infos, ex = SC.build_series([{"at": at, "k": 3, "cmap": cm, "post": post0, "time": 0.0},
-                                    {"at": at, "k": 3, "cmap": cm, "post": post1, "time": 0.4}])
+    lab = None
+    if spec[0] == "v" and len(spec) > 4 and spec[4] == "flip_lens_neighbour":
+        # one of the two cells beside the lens cell (largest id) is stored in the opposite rotational sense: the direction in which an
+        # interface is stored follows the cell it is first met in, so both sides of the lens then run from the same junction to the same junction
+        lens = sorted(at["C"], key=int)[-1]
+        nb = [it["R"] for it in at["I"] if it["L"] == lens and it["R"] is not None]
+        lab = {"flips": nb[:1]}
+    s, infos, ex = SC.build_series([{"at": at, "k": 3, "cmap": cm, "post": post0, "time": 0.0, "lab": lab},
+                                    {"at": at, "k": 3, "cmap": cm, "post": post1, "time": 0.4, "lab": lab}])
     if ex is not None:
         raise RuntimeError("series construction failed: %s" % ex)
     s._harness_info1 = infos[1]
@@ -327,6 +334,8 @@ def build(tier, seed):
     M = ["m", 0.05, 0.02]
     specs = [["v", "v5x5", M, 0.0], ["v", "v5x5", M, 0.08], ["sq", 4, 0.25, seed + 1, ["id"], 0.0], ["v", "v4x4p%d" % (seed + 1), ["mc", 0.12, 0.05], 0.0]]
     specs += [["v", "v6x5", M, 0.0], ["sq", 3, 0.2, seed + 3, ["m", 0.03, 0.0], 0.0]]
+    # tissues with a lens cell: two internal interfaces run between the same two junctions
+    specs += [["v", "v5x5+lens0", M, 0.0], ["v", "v6x5+lens5", ["mc", 0.12, 0.05], 0.05, "flip_lens_neighbour"], ["v", "v5x5+lens0", M, 0.0, "flip_lens_neighbour"]]
     if tier == "thorough":
         specs += [["v", "v6x6", ["id"], 0.05], ["sq", 5, 0.3, seed + 2, ["id"], 0.03], ["v", "v7x6", M, 0.0],
                   ["v", "v6x5", ["mc", 0.12, 0.05], 0.15]]
